@@ -338,10 +338,11 @@ def main(out_v, out_json):
                         for t in n.targets:
                             if isinstance(t, ast.Subscript) and isinstance(t.slice, ast.Constant) and t.slice.value == "__loader__":
                                 note_value(n.value, fn, f"{f.name}:{n.lineno}: __loader__ assignment")
-                    elif isinstance(n, ast.Call) and isinstance(n.func, ast.Attribute) and n.func.attr in ("update", "setdefault"):
+                    elif isinstance(n, ast.Call):
+                        # dict(__loader__=...), state.update(__loader__=...), dict(header, __loader__=...): whatever the callee
                         for kw in n.keywords:
                             if kw.arg == "__loader__":
-                                note_value(kw.value, fn, f"{f.name}:{n.lineno}: __loader__ through {n.func.attr}()")
+                                note_value(kw.value, fn, f"{f.name}:{n.lineno}: __loader__ as a keyword of {ast.unparse(n.func)}()")
                 if isinstance(n, ast.Call):
                     name = n.func.id if isinstance(n.func, ast.Name) else (n.func.attr if isinstance(n.func, ast.Attribute) else None)
                     if name in helpers:
